@@ -42,7 +42,25 @@ def c14_jobs(tier):
     return [sim("c14-push-faults", "c14", require_counters=["posts_observed", "delete_while_failing_checked", "rounds_against_closed_port", "answers.102", "answers.late90s-200", "answers.reset"])]
 
 
+def c02_jobs(tier):
+    return [sim("c02-seq", "c02", require_counters=["effective_acks", "stale_unknown_repeated_acks", "deadline_crossings_after_ack"])]
+
+
+def c04_jobs(tier):
+    return [sim("c04-phases", "c04", require_counters=["expiry_measured_by_blocked_pull", "expiry_measured_by_stream", "probe_before_deadline_empty", "probe_after_slack_returned", "second_expiry_observed"])]
+
+
 PROPERTIES = {
+    "C04": {"level": "exploration", "jobs": c04_jobs, "engine": "dvsim",
+            "technique": "runtime monitoring on a virtual clock: phase-aligned deadline probes (epoch hook) and parked consumers measuring the real expiry instant, checked against the reference model",
+            "level_text": "The hand-out instant is placed at every millisecond phase 0..99 of the server's 100 ms rounding grid (through the epoch hook) for each ack_deadline_seconds value and each consumer kind (probe pulls, a parked blocking pull, an open stream); the lease is probed 1 ms before its deadline (must be absent) and just after deadline + 999 ms (must be present), a parked consumer measures the real expiry instant (min/max lateness reported), and the old ack id is shown to be inert across a second expiry. Random histories add coexisting leases with different deadlines. Exhaustive at millisecond granularity over the stated values; other values and longer histories are sampled.",
+            "level_note": SIM_NOTE + " Verdict bound is the property's sub-second slack (999 ms), not today's 100 ms; observed lateness is evidence only.",
+            "assumptions": ["tokio timers have 1 ms resolution: expiry instants are observed rounded up to the next millisecond"]},
+    "C02": {"level": "exploration", "jobs": c02_jobs, "engine": "dvsim",
+            "technique": "runtime monitoring against an executable reference model: exhaustive bounded operation sequences + random sequential histories on a virtual clock, exact per-step oracle incl. stats of every subscription",
+            "level_text": "All sequences up to length 4 (quick) / 5 (thorough) over a 12-letter alphabet (publish, pulls, ack of oldest/newest/stale/unknown/repeated IDs, nack, modify, time advances to 1 ms before / just past the next deadline) run against the real services on a topic with two subscriptions, followed by three deadline crossings with full pulls; plus thousands of random 40-80 step histories. After every step the reference model must admit the response and the hook stats of both subscriptions must equal the model, so 'touches nothing else' is observed, not assumed. The bounded family is enumerated completely; longer histories are sampled.",
+            "level_note": SIM_NOTE,
+            "assumptions": ["acks inside the expiry window [D, D+999 ms] assert nothing (ambiguous)"]},
     "C14": {"level": "fault_enumeration", "jobs": c14_jobs, "engine": "dvsim + scripted push endpoint",
             "technique": "fault injection with runtime monitoring: scripted HTTP endpoint enumerates per-attempt behaviour sequences; offline checker over the endpoint's request log",
             "level_text": "The real push loop POSTs to a scripted raw-TCP HTTP endpoint inside the episode's runtime; every per-attempt behaviour sequence up to length 2 (quick) / 3 (thorough) over 17 behaviours (accepted and rejected statuses, interim 1xx, resets, late answers) is enumerated for 1 and 3 messages, plus closed-port and delete-while-failing episodes. The checker over the request log requires well-formed bodies naming the subscription, a re-POST after every failure within 2 intervals + margin, no POST after an accepted in-deadline answer for 5 virtual minutes, no POST for pull-only siblings and none after deletion. Complete enumeration of the fault family to the bound; timing uses wide margins because virtual time is lumpy with real sockets.",
